@@ -108,10 +108,40 @@ NAMES = list(_BUILDERS)
 _cache = {}
 
 
+_pristine = {}
+
+
+def _remember(name, s):
+    import copy
+
+    for t in s.nodes.values():
+        if isinstance(t.default_attrs, dict):
+            _pristine[(name, "n", t.name)] = (t.default_attrs, copy.deepcopy(t.default_attrs))
+    for t in s.marks.values():
+        if t.instance is not None and isinstance(t.instance.attrs, dict):
+            _pristine[(name, "m", t.name)] = (t.instance.attrs, copy.deepcopy(t.instance.attrs))
+
+
+def restore_defaults():
+    """Schema objects are process-wide (basic and list are the library's own module-level
+    singletons): a run that corrupts a type's shared default attrs must not leak into the next
+    run of the same worker process.  Returns the names of what had to be restored."""
+    import copy
+
+    dirty = []
+    for key, (live, good) in _pristine.items():
+        if live != good:
+            dirty.append("%s:%s" % (key[0], key[2]))
+            live.clear()
+            live.update(copy.deepcopy(good))
+    return dirty
+
+
 def get(name):
     s = _cache.get(name)
     if s is None:
         s = _cache[name] = _BUILDERS[name]()
+        _remember(name, s)
     return s
 
 
